@@ -4,20 +4,505 @@ Differential oracle: one gcc probe per batch prints sizeof/_Alignof/offsetof
 and, for each named bitfield, the byte image of a zeroed object after an
 all-ones store (= the exact storage bits).  cffi side runs on the ASan/UBSan
 backend.
+
+Two populations of declarations: the shared generator vlib/gen_types.py
+("base") and the extended generator below ("ext": Gen01), which adds the
+input classes an audit found missing -- packing combined with nested /
+anonymous / inline-defined aggregates, packed aggregates used as members,
+aggregates reached through typedef names, several aggregates in one cdef(),
+pointers to the aggregate itself / to enclosing / to never-completed
+aggregates, aggregates first used as an array element, zero-length and large
+arrays, more bitfield base type spellings, bitfield widths / array lengths
+written as constant expressions, macros or enum constants, qualifiers, many
+fields, deeper nesting, declaration through an included FFI.  Both
+populations are queried in different orders (members first / containers
+first) and through several entry points (type string, ctype object, tag and
+typedef name, instance, CField descriptors, addressof), and every bitfield is
+also read back and zero-stored.
 """
-import os, json
+import os, json, sys
 from vlib import core, cc, gen_types as G
 
-RULE = ("case = one struct/union declaration (1-12 members, nesting depth <= 3) over every "
-        "primitive type, pointers, function pointers, 1-3-dim arrays, named and anonymous nested "
+RULE = ("case = one struct/union declaration with the aggregates it uses (1-12, sometimes 40 "
+        "members, nesting depth <= 3, sometimes 5) over every "
+        "primitive type, pointers (to primitives, to the aggregate itself, to enclosing, earlier "
+        "and never-completed aggregates, to arrays), function pointers, 1-3-dim arrays (lengths "
+        "0..300, and 2**16..2**32+1 in bitfield-free aggregates), named, anonymous and "
+        "inline-defined nested "
         "struct/union, bitfields of explicitly signed/unsigned integer types and _Bool (named, "
-        "unnamed, zero-width, widths 0..width(type)), optional trailing flexible array, "
-        "packed=True / pack=N when no bitfield; distinct = declaration text; non-trivial = >= 2 "
+        "unnamed, zero-width, widths 0..width(type); width and array length written as "
+        "decimal/hex/octal/expression/#define/enum constant), "
+        "optional trailing flexible array, "
+        "packed=True / pack=N (1..16) when no bitfield, also with nested aggregates of the same "
+        "or a different packing; declared by tag, typedef of an anonymous struct, typedef with "
+        "tag, or forward typedef; one cdef() per aggregate or one for all, directly or through "
+        "ffi.include(); after no / a forward / a used forward declaration; queried members "
+        "first, containers first or shuffled; distinct = "
+        "declaration text; non-trivial = >= 2 "
         "members and at least one of: bitfield, nested/anonymous aggregate, mixed alignments, "
         "packing, array")
 ASSUMPTIONS = ["gcc (sysconfig CC) is the platform compiler; clang is consulted on the thorough tier and a gcc/clang disagreement makes the case inconclusive",
-               "every aggregate has at least one named member (a struct of only unnamed bitfields is not ISO C)",
-               "only the x86-64 SysV (gcc) bitfield ABI branch of the backend is executed"]
+               "every aggregate has at least one named member of non-zero size (a struct of only unnamed bitfields or zero-length arrays is not ISO C; gcc gives it size 0)",
+               "only the x86-64 SysV (gcc) bitfield ABI branch of the backend is executed",
+               "zero-length arrays (T a[0], a GNU extension accepted by gcc, clang and cffi) count as arrays",
+               "cffi's packed=True / pack=N applies to every aggregate defined in that cdef(), i.e. it is '#pragma pack(N)' around the cdef text",
+               "the (offset, bitshift, bitsize) of a CField are read as little-endian bit positions (skipped on a big-endian host)"]
+
+# bitfield base types: name -> (bits, signed)
+BF_ALL = {}
+for _n, _b in G.BF_TYPES:
+    BF_ALL[_n] = (_b, not (_n.startswith('u') or _n == '_Bool'))
+EXTRA_BF = [('size_t', 64, False), ('ssize_t', 64, True), ('intptr_t', 64, True),
+            ('uintptr_t', 64, False), ('ptrdiff_t', 64, True), ('unsigned long int', 64, False),
+            ('short int', 16, True), ('unsigned short int', 16, False), ('long int', 64, True),
+            ('long long int', 64, True), ('unsigned long long int', 64, False),
+            ('signed short', 16, True), ('signed long', 64, True), ('signed long long', 64, True),
+            ('long unsigned', 64, False), ('signed short int', 16, True),
+            ('int_least8_t', 8, True), ('uint_least8_t', 8, False), ('uint_least16_t', 16, False),
+            ('int_least64_t', 64, True), ('int_fast8_t', 8, True), ('uint_fast8_t', 8, False),
+            ('int_fast16_t', 64, True), ('uint_fast32_t', 64, False), ('int_fast64_t', 64, True),
+            ('intmax_t', 64, True), ('uintmax_t', 64, False)]
+for _n, _b, _s in EXTRA_BF:
+    BF_ALL[_n] = (_b, _s)
+BF_EXT_CHOICES = list(G.BF_TYPES) + [(n, b) for n, b, s in EXTRA_BF]
+
+
+# ---------------------------------------------------------------------------
+# rendering (superset of gen_types.render_*: 'ref', 'inline', 'q', 'wexpr')
+
+def r_type(t, inner=''):
+    k = t['k']
+    if k == 'prim':
+        q = t.get('q')
+        return ((q + ' ' if q else '') + t['name'] + ' ' + inner).rstrip()
+    if k == 'agg':
+        if t.get('inline') is not None:
+            return (r_body(t['inline']) + ' ' + inner).rstrip()
+        return ((t.get('ref') or '%s %s' % (t['kind'], t['name'])) + ' ' + inner).rstrip()
+    if k == 'anon':
+        return (r_body(t['agg']) + ' ' + inner).rstrip()
+    if k == 'ptr':
+        to = t['to']
+        q = t.get('q')
+        inner = (q + ' ' + inner) if q else inner
+        if to['k'] in ('array', 'fnptr'):
+            return r_type(to, '(*%s)' % inner)
+        return r_type(to, '*' + inner)
+    if k == 'array':
+        n = '' if t['n'] is None else str(t.get('nexpr') or t['n'])
+        return r_type(t['of'], '%s[%s]' % (inner, n))
+    if k == 'fnptr':
+        ret, args, ell = t['sig']
+        a = list(args)
+        if ell:
+            a = (a or ['int']) + ['...']
+        return '%s (*%s)(%s)' % (ret, inner, ', '.join(a) or 'void')
+    raise ValueError(k)
+
+
+def r_field(f):
+    if f['bits'] is not None:
+        q = f['type'].get('q')
+        return '%s%s %s : %s;' % (q + ' ' if q else '', f['type']['name'], f['name'],
+                                  f.get('wexpr') or f['bits'])
+    return r_type(f['type'], f['name']) + ';'
+
+
+def r_body(agg, attr=''):
+    name = agg['name'] or ''
+    if agg.get('form') == 'typedef_anon':
+        name = ''
+    return '%s %s%s { %s }' % (agg['kind'], attr, name,
+                               ' '.join(r_field(f) for f in agg['fields']))
+
+
+def r_unit(agg, attr=''):
+    form = agg.get('form', 'tag')
+    if form == 'tag':
+        return r_body(agg, attr) + ';'
+    if form == 'typedef_anon':
+        return 'typedef %s %s_t;' % (r_body(agg, attr), agg['name'])
+    if form == 'typedef_tag':
+        return 'typedef %s %s_t, *%s_p;' % (r_body(agg, attr), agg['name'], agg['name'])
+    if form == 'typedef_fwd':
+        return 'typedef %s %s %s_t; %s;' % (agg['kind'], agg['name'], agg['name'],
+                                            r_body(agg, attr))
+    raise ValueError(form)
+
+
+def pack_c(text, packed, use_attr_text=None):
+    """C text for a cdef text declared with cdef(packed=True) / cdef(pack=N)."""
+    if not packed:
+        return text
+    if packed is True and use_attr_text is not None:
+        return use_attr_text
+    return '#pragma pack(push, %d)\n%s\n#pragma pack(pop)' % (1 if packed is True else packed,
+                                                              text)
+
+
+def pack_kw(packed):
+    if packed is True:
+        return {'packed': True}
+    if packed:
+        return {'pack': packed}
+    return {}
+
+
+def agg_ref(a):
+    return a.get('ref') or '%s %s' % (a['kind'], a['name'])
+
+
+def agg_tag(a):
+    """'struct N' when the aggregate has a tag, else None."""
+    if a.get('form') == 'typedef_anon' or not a['name']:
+        return None
+    return '%s %s' % (a['kind'], a['name'])
+
+
+# ---------------------------------------------------------------------------
+# extended generator
+
+def sized(t):
+    """False for zero-length / flexible arrays (and arrays of them)."""
+    if t['k'] == 'array':
+        return bool(t['n']) and sized(t['of'])
+    return True
+
+
+class Gen01(G.Gen):
+    def __init__(self, rng, prefix, maxdepth=3, bitfields=True):
+        G.Gen.__init__(self, rng, prefix=prefix)
+        self.maxdepth = maxdepth
+        self.bitfields = bitfields
+        self.pickable = []       # completed aggregates usable by value in later units
+        self.stack = []          # 'struct N' of the enclosing aggregates being generated
+        self.feat = {}
+        self.consts = []         # (name, value, 'define' | 'enum')
+
+    def const(self, value):
+        name = '%sK%d' % (self.prefix.upper(), len(self.consts) + 1)
+        self.consts.append((name, value, self.rng.choice(['define', 'enum'])))
+        self.note('width_or_length_from_macro_or_enum_constant')
+        return name
+
+    def preamble(self):
+        lines = ['#define %s %d' % (n, v) for n, v, k in self.consts if k == 'define']
+        en = ['%s = %d' % (n, v) for n, v, k in self.consts if k == 'enum']
+        if en:
+            lines.append('enum { %s };' % ', '.join(en))
+        return ''.join(l + '\n' for l in lines)
+
+    def note(self, name):
+        self.feat[name] = self.feat.get(name, 0) + 1
+
+    def qual(self, t, p=0.12):
+        if self.rng.random() < p:
+            t = dict(t)
+            t['q'] = self.rng.choice(['const', 'volatile', 'const volatile'])
+            self.note('qualified_fields')
+        return t
+
+    def agg_type(self, d):
+        t = {'k': 'agg', 'name': d['name'], 'kind': d['kind']}
+        form = d.get('form', 'tag')
+        if form == 'typedef_anon' or (form != 'tag' and self.rng.random() < 0.6):
+            t['ref'] = d['name'] + '_t'
+            self.note('member_through_typedef_name')
+        return t
+
+    def pointer(self):
+        rng = self.rng
+        r = rng.random()
+        tags = [s for s in self.stack if s]
+        if r < 0.3:
+            to = rng.choice([self.prim(), {'k': 'prim', 'name': 'void'},
+                             {'k': 'ptr', 'to': self.prim()}])
+        elif r < 0.5 and tags:
+            # the aggregate being defined (or one that encloses / follows it)
+            s = rng.choice([tags[-1], rng.choice(tags)])
+            to = {'k': 'prim', 'name': s}
+            if s == tags[-1]:
+                self.note('pointer_to_self')
+            else:
+                self.note('pointer_to_enclosing_or_later_aggregate')
+            if rng.random() < 0.3:
+                to = {'k': 'ptr', 'to': to}
+        elif r < 0.7 and self.pickable:
+            d = rng.choice(self.pickable)
+            if d.get('form') == 'typedef_tag' and rng.random() < 0.5:
+                self.note('pointer_typedef_member')
+                return {'k': 'prim', 'name': d['name'] + '_p'}
+            to = self.agg_type(d)
+            self.note('pointer_to_earlier_aggregate')
+        elif r < 0.8:
+            to = {'k': 'prim', 'name': 'struct %sopq' % self.prefix}
+            self.note('pointer_to_never_completed_struct')
+        elif r < 0.9:
+            to = {'k': 'array', 'of': self.prim(), 'n': rng.choice([1, 3, 4])}
+            self.note('pointer_to_array')
+        else:
+            to = self.prim()
+        t = {'k': 'ptr', 'to': to}
+        if rng.random() < 0.1:
+            t['q'] = 'const'
+        return t
+
+    def simple_type(self, depth, allow_zero=True):
+        rng = self.rng
+        r = rng.random()
+        if r < 0.42:
+            return self.qual(self.prim())
+        if r < 0.60:
+            return self.pointer()
+        if r < 0.65:
+            return {'k': 'fnptr', 'sig': (rng.choice(['int', 'void', 'double', 'char *']),
+                                          [rng.choice(['int', 'char', 'double', 'void *'])
+                                           for _ in range(rng.randrange(0, 3))],
+                                          rng.random() < 0.2)}
+        if r < 0.83:
+            t = self.simple_type(depth + 1, allow_zero) if depth < 2 else self.prim()
+            if t['k'] == 'array' and t['n'] is None:
+                t = self.prim()
+            rr = rng.random()
+            if rr < 0.08 and allow_zero:
+                n = 0
+                self.note('zero_length_arrays')
+            elif rr < 0.2 and t['k'] != 'array':
+                n = rng.choice([4, 8, 16, 17, 64, 300])
+            else:
+                n = rng.choice([1, 2, 3, 5, 7])
+            t = {'k': 'array', 'of': t, 'n': n}
+            rr = rng.random()
+            if rr < 0.06:
+                t['nexpr'] = self.const(n)
+            elif rr < 0.12:
+                t['nexpr'] = rng.choice(['0x%x' % n, '(%d+%d)' % (n, 0), '%d*1' % n])
+                self.note('array_length_expression')
+            return t
+        if r < 0.95 and self.pickable:
+            d = rng.choice(self.pickable)
+            if not d.get('flex'):
+                return self.agg_type(d)
+        return self.prim()
+
+    def bitfield(self, allow_unnamed=True):
+        rng = self.rng
+        T, bits = rng.choice(BF_EXT_CHOICES)
+        r = rng.random()
+        if T == '_Bool':
+            w = rng.choice([1, 1, 0]) if allow_unnamed else 1
+        elif r < 0.12 and allow_unnamed:
+            w = 0
+        elif r < 0.25:
+            w = bits
+        elif r < 0.4:
+            w = rng.choice([1, bits - 1, bits // 2, bits // 2 + 1])
+        else:
+            w = rng.randint(1, bits)
+        unnamed = w == 0 or (allow_unnamed and rng.random() < 0.12)
+        f = {'name': '' if unnamed else None, 'type': {'k': 'prim', 'name': T}, 'bits': w}
+        r = rng.random()
+        if r < 0.08:
+            f['wexpr'] = '0x%x' % w
+        elif r < 0.16:
+            f['wexpr'] = '0%o' % w
+        elif r < 0.26:
+            a = rng.randint(0, w)
+            f['wexpr'] = rng.choice(['(%d+%d)' % (a, w - a), '%d + %d' % (a, w - a),
+                                     '(%d-%d)' % (w + a, a), '(%d*1)' % w, '(%d<<1>>1)' % w])
+        elif r < 0.34:
+            f['wexpr'] = self.const(w)
+        if 'wexpr' in f and not f['wexpr'].startswith(self.prefix.upper()):
+            self.note('bitfield_width_expression')
+        if not unnamed and rng.random() < 0.08:
+            f['type']['q'] = 'volatile'
+            self.note('qualified_fields')
+        return f
+
+    def aggregate(self, depth=0, anon=False, inline=False, allow_flex=True, maxfields=12):
+        rng = self.rng
+        kind = 'union' if rng.random() < 0.25 else 'struct'
+        name = None if anon else self.fresh(kind)
+        form = 'tag'
+        if not anon and not inline and rng.random() < 0.45:
+            form = rng.choice(['typedef_anon', 'typedef_tag', 'typedef_fwd'])
+        agg = {'kind': kind, 'name': name, 'fields': [], 'packed': None, 'flex': False,
+               'form': form}
+        if form == 'typedef_anon':
+            agg['ref'] = name + '_t'
+        elif form != 'tag' and rng.random() < 0.5:
+            agg['ref'] = name + '_t'
+        self.stack.append(None if (anon or form == 'typedef_anon')
+                          else '%s %s' % (kind, name))
+        nf = rng.choice([1, 1, 2, 2, 3, 3, 4, 5, 6, 8, maxfields])
+        bitmode = self.bitfields and rng.random() < 0.45
+        fields = agg['fields']
+        for i in range(nf):
+            r = rng.random()
+            if bitmode and r < 0.6:
+                f = self.bitfield()
+            elif depth < self.maxdepth and r > 0.9:
+                sub = self.aggregate(depth + 1, anon=True, allow_flex=False, maxfields=4)
+                f = {'name': '', 'type': {'k': 'anon', 'agg': sub}, 'bits': None}
+            elif depth < self.maxdepth and r > 0.8:
+                inl = rng.random() < 0.35
+                sub = self.aggregate(depth + 1, inline=inl, allow_flex=False, maxfields=5)
+                self.decls.append(sub)
+                t = self.agg_type(sub)
+                if inl:
+                    sub['inline_in'] = True
+                    t['inline'] = sub
+                    self.note('inline_defined_members')
+                else:
+                    self.pickable.append(sub)
+                f = {'name': None, 'type': t, 'bits': None}
+            else:
+                f = {'name': None, 'type': self.simple_type(depth), 'bits': None}
+            fields.append(f)
+        for f in fields:
+            if f['name'] is None:
+                self.fcount += 1
+                f['name'] = 'f%d' % self.fcount
+        # at least one named member of non-zero size
+        if not any((f['name'] and (f['bits'] or (f['bits'] is None and sized(f['type']))))
+                   or f['type']['k'] == 'anon' for f in fields):
+            self.fcount += 1
+            fields.append({'name': 'f%d' % self.fcount, 'type': self.prim(), 'bits': None})
+        if allow_flex and kind == 'struct' and rng.random() < 0.12:
+            if rng.random() < 0.5:
+                el = self.prim()
+            else:
+                el = self.simple_type(1, allow_zero=False)
+                if not sized(el):
+                    el = self.prim()
+                self.note('flexible_array_of_nonprimitive')
+            fields.append({'name': 'flex%d' % self.count,
+                           'type': {'k': 'array', 'of': el, 'n': None}, 'bits': None})
+            agg['flex'] = True
+        self.stack.pop()
+        return agg
+
+    def toplevel(self, **kw):
+        a = self.aggregate(0, **kw)
+        self.decls.append(a)
+        self.pickable.append(a)
+        return a
+
+
+def unit_members(a):
+    """the aggregates whose definition text is inside a's unit: a itself, its
+    anonymous members and its inline-defined members, recursively."""
+    out = [a]
+
+    def walk(t):
+        if t['k'] == 'anon':
+            out.extend(unit_members(t['agg']))
+        elif t['k'] == 'agg' and t.get('inline') is not None:
+            out.extend(unit_members(t['inline']))
+        elif t['k'] == 'array':
+            walk(t['of'])
+    for f in a['fields']:
+        walk(f['type'])
+    return out
+
+
+def own_bitfields(a):
+    return any(f['bits'] is not None for f in a['fields'])
+
+
+PACKS = [True, True, 1, 2, 2, 4, 4, 8, 16]
+
+
+def gen_ext_context(rng, i):
+    mode_big = rng.random() < 0.06
+    g = Gen01(rng, prefix='e%d_' % i, maxdepth=5 if rng.random() < 0.1 else 3,
+              bitfields=not mode_big)
+    for _ in range(rng.choice([0, 0, 1, 1, 2])):
+        # earlier aggregates that are not members of anything yet: later ones may use
+        # them first as an array element, a pointer target, a flexible-array element ...
+        g.toplevel()
+        g.note('independent_earlier_aggregates')
+    top = g.toplevel(maxfields=40 if rng.random() < 0.06 else 12)
+    if mode_big:
+        # boundary sizes: offsets beyond 16/31/32 bits (bitfield-free, so no object is built)
+        flds = top['fields']
+        for _ in range(rng.choice([1, 1, 2])):
+            g.fcount += 1
+            pos = rng.randrange(0, len(flds) + (0 if top['flex'] else 1))
+            flds.insert(pos, {'name': 'f%d' % g.fcount, 'bits': None,
+                              'type': {'k': 'array', 'of': g.prim(),
+                                       'n': rng.choice([65536, 65537, (1 << 31) - 1,
+                                                        (1 << 31) + 5, (1 << 32) + 1])}})
+        g.note('large_arrays')
+    decls = g.decls
+    byname = dict((d['name'], d) for d in decls)
+    heads = [d for d in decls if not d.get('inline_in')]
+    onecdef = rng.random() < 0.3 and len(heads) > 1
+    # packing: one value per cdef() text, only when no bitfield is defined in that text
+    if onecdef:
+        members = [m for h in heads for m in unit_members(h)]
+        pk = None
+        if not any(own_bitfields(m) for m in members) and rng.random() < 0.5:
+            pk = rng.choice(PACKS)
+        for m in members:
+            m['packed'] = pk
+    else:
+        for h in heads:
+            members = unit_members(h)
+            pk = None
+            if not any(own_bitfields(m) for m in members) and rng.random() < 0.35:
+                pk = rng.choice(PACKS)
+            for m in members:
+                m['packed'] = pk
+    units = []
+    for h in heads:
+        text = r_unit(h)
+        members = unit_members(h)
+        attr_text = None
+        if len(members) == 1 and rng.random() < 0.5:
+            attr_text = r_unit(h, '__attribute__((packed)) ')
+        units.append({'cffi': text, 'kw': pack_kw(h['packed']),
+                      'c': pack_c(text, h['packed'], attr_text),
+                      'fwd': [agg_tag(m) for m in members if m['name'] and agg_tag(m)]})
+        if h['packed'] and len(members) > 1:
+            g.note('packed_with_nested_definitions')
+    pre = g.preamble()
+    if pre:
+        units[0]['cffi'] = pre + units[0]['cffi']
+        units[0]['c'] = pre + units[0]['c']
+    if onecdef:
+        text = '\n'.join(u['cffi'] for u in units)
+        pk = heads[0]['packed']
+        units = [{'cffi': text, 'kw': pack_kw(pk), 'c': pack_c(text, pk),
+                  'fwd': [t for u in units for t in u['fwd']]}]
+        g.note('several_aggregates_in_one_cdef')
+    for d in decls:
+        if d['packed']:
+            for f in d['fields']:
+                t = f['type']
+                while t['k'] == 'array':
+                    t = t['of']
+                if t['k'] in ('agg', 'anon'):
+                    g.note('packed_with_aggregate_member')
+                    break
+        for f in d['fields']:
+            t = f['type']
+            while t['k'] == 'array':
+                t = t['of']
+            if t['k'] == 'agg' and byname.get(t['name'], {}).get('packed') and \
+                    byname[t['name']]['packed'] != d['packed']:
+                g.note('member_of_different_packing')
+        if d.get('form', 'tag') != 'tag':
+            g.note('declared_' + d['form'])
+    inc = None
+    if rng.random() < 0.18:
+        # declared (partly) in another FFI that the querying FFI includes
+        inc = rng.choice([len(units), rng.randint(0, len(units))])
+    return {'id': 'e%d' % i, 'n': i, 'decls': decls, 'top': top['name'], 'units': units,
+            'ext': True, 'feat': g.feat, 'inc': inc,
+            'hist': rng.randrange(3), 'order': rng.choice(['members_first', 'containers_first',
+                                                           'shuffled']),
+            'oseed': rng.randrange(1 << 30)}
 
 
 def gen_contexts(ctx, n):
@@ -26,15 +511,31 @@ def gen_contexts(ctx, n):
     for i in range(n):
         g = G.Gen(rng, prefix='c%d_' % i)
         top = g.toplevel()
-        out.append({'id': i, 'decls': g.decls, 'top': top['name']})
+        units = []
+        for a in g.decls:
+            t, kw = G.render_decl_cffi(a)
+            tag = '%s %s' % (a['kind'], a['name'])
+            units.append({'cffi': t, 'kw': kw, 'c': G.render_decl_c(a), 'fwd': [tag]})
+        out.append({'id': i, 'n': i, 'decls': g.decls, 'top': top['name'], 'units': units,
+                    'hist': i % 3,
+                    'order': ['members_first', 'containers_first', 'shuffled'][(i // 3) % 3],
+                    'oseed': i})
     return out
 
 
+def gen_ext_contexts(ctx, n):
+    rng = ctx.rng('gen-ext')
+    return [gen_ext_context(rng, i) for i in range(n)]
+
+
+BIG = 1 << 20       # no object of a larger aggregate is built (neither by gcc nor by cffi)
+
+
 def probe_unit(c):
-    decls = '\n'.join(G.render_decl_c(a) for a in c['decls'])
+    decls = '\n'.join(u['c'] for u in c['units'])
     st = []
     for a in c['decls']:
-        tag = '%s %s' % (a['kind'], a['name'])
+        tag = agg_ref(a)
         st.append('printf("A %s %%zu %%zu\\n", sizeof(%s), (size_t)_Alignof(%s));' %
                   (a['name'], tag, tag))
         for path, f in G.named_paths(a):
@@ -50,8 +551,9 @@ def probe_unit(c):
 
 
 def generate(ctx):
-    n = ctx.scale(2500, 60000)
-    ctxs = gen_contexts(ctx, n)
+    n = ctx.scale(1300, 30000)
+    n2 = ctx.scale(700, 15000)
+    ctxs = gen_contexts(ctx, n) + gen_ext_contexts(ctx, n2)
     units = [probe_unit(c) for c in ctxs]
     res = cc.batch_probe(ctx.tmp, units, batch=120)
     res2 = cc.batch_probe(ctx.tmp, units, cc='clang', batch=120) if ctx.thorough else None
@@ -67,7 +569,7 @@ def generate(ctx):
             continue
         c['gcc'] = r
         cases.append(c)
-    if ctx.counters.get('gcc_rejected_by_generator_bug', 0) > n // 50:
+    if ctx.counters.get('gcc_rejected_by_generator_bug', 0) > (n + n2) // 50:
         raise core.Inconclusive('generator produces too many declarations gcc rejects')
     per = 60
     return None, [{'ctxs': cases[i:i + per]} for i in range(0, len(cases), per)]
@@ -78,32 +580,68 @@ def child_setup(setup, wd):
 
 
 def child_case(st, case):
+    import random
     from cffi import FFI
     rep = core.ChildRep()
+    little = sys.byteorder == 'little'
     for c in case['ctxs']:
         ffi = FFI()
-        text = '\n'.join(G.render_decl_c(a) for a in c['decls'])
-        ok = True
-        hist = c['id'] % 3      # 0: plain; 1: forward-declared; 2: forward-declared and used
-        for a in c['decls']:
-            t, kw = G.render_decl_cffi(a)
-            try:
-                if hist:
-                    # multi-step history: the aggregate is first only mentioned
-                    # (and possibly used as an opaque type), completed later
-                    tag = '%s %s' % (a['kind'], a['name'])
-                    ffi.cdef(tag + ';')
-                    if hist == 2:
-                        ffi.typeof(tag + ' *')
-                        ffi.new(tag + ' **')
-                    rep.stat('completed_after_forward_declaration')
-                ffi.cdef(t, **kw)
-            except Exception as e:
-                rep.bad('declaration-rejected', 'cdef rejected %r (%s): %s: %s' %
-                        (t, kw, type(e).__name__, e), c['id'])
-                ok = False
+        text = '\n'.join(u['c'] for u in c['units'])
+        hist = c['hist']        # 0: plain; 1: forward-declared; 2: forward-declared and used
+        for k, v in c.get('feat', {}).items():
+            rep.stat(k, v)
+        rep.stat('ext_contexts' if c.get('ext') else 'base_contexts')
+        inc = c.get('inc')
+        if inc is None:
+            steps = [(ffi, c['units'], hist)]
+        else:
+            # the first `inc` cdef texts go to another FFI that the querying one
+            # includes.  That FFI builds backend types (hist == 2) only when it
+            # defines everything: completing in one FFI a type that another FFI
+            # has already built as opaque is a history outside this property.
+            rep.stat('declared_through_ffi_include')
+            if 0 < inc < len(c['units']):
+                rep.stat('declared_partly_in_included_ffi')
+            ffi1 = FFI()
+            steps = [(ffi1, c['units'][:inc], hist if inc == len(c['units']) else min(hist, 1)),
+                     (ffi, c['units'][inc:], hist)]
+        err = None
+        for si, (fx, units, h) in enumerate(steps):
+            if inc is not None and si == 1:
+                try:
+                    ffi.include(ffi1)
+                except Exception as e:
+                    err = 'include() raised %s: %s' % (type(e).__name__, e)
+                    break
+            if h:
+                # multi-step history: the aggregates are first only mentioned
+                # (and possibly used as opaque types), completed later
+                try:
+                    tags = [tag for u in units for tag in u['fwd']]
+                    if c.get('ext'):
+                        # all mentioned in one cdef()
+                        fx.cdef(' '.join(tag + ';' for tag in tags))
+                    for tag in tags:
+                        if not c.get('ext'):
+                            fx.cdef(tag + ';')
+                        if h == 2:
+                            fx.new(tag + ' **')
+                        rep.stat('completed_after_forward_declaration')
+                except Exception as e:
+                    err = 'forward declaration rejected: %s: %s' % (type(e).__name__, e)
+                    break
+            for u in units:
+                try:
+                    fx.cdef(u['cffi'], **u['kw'])
+                    rep.stat('cdef_calls')
+                except Exception as e:
+                    err = 'cdef rejected %r (%s): %s: %s' % (u['cffi'], u['kw'],
+                                                             type(e).__name__, e)
+                    break
+            if err:
                 break
-        if not ok:
+        if err:
+            rep.bad('declaration-rejected', '%s :: %s' % (err, text[:400]), c['id'])
             continue
         facts = {}
         for line in c['gcc']:
@@ -112,12 +650,19 @@ def child_case(st, case):
         top = [a for a in c['decls'] if a['name'] == c['top']][0]
         nontriv = len(top['fields']) >= 2
         rep.case(text, nontrivial=nontriv, sample={'decl': text[:400]})
-        for a in c['decls']:
-            tag = '%s %s' % (a['kind'], a['name'])
+        order = list(c['decls'])
+        if c['order'] == 'containers_first':
+            order.reverse()
+        elif c['order'] == 'shuffled':
+            random.Random(c['oseed']).shuffle(order)
+        rep.stat('query_order_' + c['order'])
+        for a in order:
+            tag = agg_ref(a)
             rep.stat('aggregates')
             rep.stat('unions' if a['kind'] == 'union' else 'structs')
             if a['packed']:
                 rep.stat('packed')
+                rep.stat('packed_%s' % a['packed'])
             if a['flex']:
                 rep.stat('flexible_array')
             try:
@@ -131,8 +676,37 @@ def child_case(st, case):
                 rep.bad('size-or-alignment', '%s: cffi sizeof=%d alignof=%d, gcc %d %d :: %s' %
                         (tag, size, align, gs, ga, text[:500]), c['id'])
                 continue
+            # the same two numbers through the other entry points
+            try:
+                ct = ffi.typeof(tag)
+                alt = [(ffi.sizeof(ct), ffi.alignof(ct))]
+                stag = agg_tag(a)
+                if stag and stag != tag:
+                    alt.append((ffi.sizeof(stag), ffi.alignof(stag)))
+                    rep.stat('queried_by_tag_and_typedef_name')
+                inst = None
+                pt = ffi.typeof(tag + ' *')
+                if gs <= 65536:
+                    inst = ffi.new(pt)
+                    alt.append((ffi.sizeof(inst[0]), ffi.alignof(ffi.typeof(inst[0]))))
+                    rep.stat('instances')
+            except Exception as e:
+                rep.bad('declaration-rejected', 'typeof/new(%s) raised %s: %s :: %s' %
+                        (tag, type(e).__name__, e, text[:300]), c['id'])
+                continue
+            if any(x != (gs, ga) for x in alt):
+                rep.bad('size-or-alignment:other-entry', '%s: (sizeof, alignof) through ctype / '
+                        'tag / instance = %r, gcc %d %d :: %s' % (tag, alt, gs, ga, text[:500]),
+                        c['id'])
+            try:
+                descr = dict(ct.fields)
+            except Exception as e:
+                rep.bad('declaration-rejected', 'typeof(%s).fields raised %s: %s :: %s' %
+                        (tag, type(e).__name__, e, text[:300]), c['id'])
+                descr = {}
             raw = None
             for path, f in G.named_paths(a):
+                cf = descr.get(path)
                 if f['bits'] is None:
                     rep.stat('offsets')
                     try:
@@ -145,16 +719,41 @@ def child_case(st, case):
                     if off != go:
                         rep.bad('field-offset', '%s.%s: cffi offset %d, gcc %d :: %s' %
                                 (tag, path, off, go, text[:500]), c['id'])
+                        continue
+                    if go >= 1 << 16:
+                        rep.stat('offsets_beyond_16_bits')
+                    if go >= 1 << 31:
+                        rep.stat('offsets_beyond_31_bits')
+                    if cf is not None:
+                        rep.stat('field_descriptors')
+                        if cf.offset != go or cf.bitsize != -1:
+                            rep.bad('field-descriptor', '%s.%s: CField offset=%r bitsize=%r, gcc '
+                                    'offset %d :: %s' % (tag, path, cf.offset, cf.bitsize, go,
+                                                         text[:500]), c['id'])
+                    if inst is not None:
+                        rep.stat('addressof_offsets')
+                        try:
+                            d = int(ffi.cast('intptr_t', ffi.addressof(inst, path))) - \
+                                int(ffi.cast('intptr_t', inst))
+                        except Exception as e:
+                            rep.bad('offsetof-raised', 'addressof(%s, %s) raised %s: %s :: %s' %
+                                    (tag, path, type(e).__name__, e, text[:300]), c['id'])
+                            continue
+                        if d != go:
+                            rep.bad('field-offset:addressof', '%s.%s: addressof gives offset %d,'
+                                    ' gcc %d :: %s' % (tag, path, d, go, text[:500]), c['id'])
                 else:
                     rep.stat('bitfields')
                     w = f['bits']
                     T = f['type']['name']
-                    bits_of_T = dict(G.BF_TYPES)[T]
+                    bits_of_T, signed = BF_ALL[T]
                     if w == bits_of_T:
                         rep.stat('full_width_bitfields')
+                    if size > BIG:
+                        rep.stat('bitfield_in_large_aggregate_skipped')
+                        continue
                     raw = ffi.new('char[]', size + 8)
-                    p = ffi.cast(tag + ' *', raw)
-                    signed = not (T.startswith('u') or T == '_Bool')
+                    p = ffi.cast(pt, raw)
                     v = -1 if signed else (1 if T == '_Bool' else (1 << w) - 1)
                     try:
                         setattr(p, path, v)
@@ -169,6 +768,53 @@ def child_case(st, case):
                                 '%s, gcc %s :: %s' % (tag, path, T, w, img, gimg, text[:500]),
                                 c['id'])
                     if bytes(ffi.buffer(raw, size + 8))[size:] != b'\0' * 8:
+                        rep.bad('bitfield-store-outside-object', '%s.%s store wrote outside the '
+                                'object' % (tag, path), c['id'])
+                    # the field as cffi describes it: the same bits
+                    if cf is not None and little:
+                        rep.stat('field_descriptors')
+                        gbits = int.from_bytes(bytes.fromhex(gimg), 'little')
+                        cbits = -1
+                        if cf.bitsize >= 0 and cf.bitshift >= 0 and cf.offset >= 0:
+                            cbits = ((1 << cf.bitsize) - 1) << (8 * cf.offset + cf.bitshift)
+                        if cbits != gbits or cf.bitsize != w:
+                            rep.bad('field-descriptor', '%s.%s (%s:%d): CField offset=%r '
+                                    'bitshift=%r bitsize=%r is not the bit range gcc stores to '
+                                    '(image %s) :: %s' % (tag, path, T, w, cf.offset, cf.bitshift,
+                                                          cf.bitsize, gimg, text[:500]), c['id'])
+                    # reading: all-ones from the compiler's image, 0 from its complement;
+                    # a store of 0 into an all-ones object clears exactly those bits
+                    rep.stat('bitfield_reads_and_zero_stores')
+                    gb = bytes.fromhex(gimg)
+                    inv = bytes(x ^ 0xFF for x in gb)
+                    try:
+                        ffi.buffer(raw, size)[:] = gb
+                        r1 = getattr(p, path)
+                        ffi.buffer(raw, size + 8)[:] = inv + b'\xff' * 8
+                        r0 = getattr(p, path)
+                    except Exception as e:
+                        rep.bad('bitfield-read-raised', '%s.%s (%s:%d) read raised %s: %s' %
+                                (tag, path, T, w, type(e).__name__, e), c['id'])
+                        continue
+                    if r1 != v or r0 != 0:
+                        rep.bad('bitfield-read-bits', '%s.%s (%s:%d): reads %r from the image '
+                                'gcc leaves after storing all-ones (%s) and %r from its '
+                                'complement; expected %r and 0 :: %s' %
+                                (tag, path, T, w, r1, gimg, r0, v, text[:500]), c['id'])
+                    try:
+                        ffi.buffer(raw, size + 8)[:] = b'\xff' * (size + 8)
+                        setattr(p, path, 0)
+                    except Exception as e:
+                        rep.bad('bitfield-store-raised', '%s.%s (%s:%d) = 0 raised %s: %s' %
+                                (tag, path, T, w, type(e).__name__, e), c['id'])
+                        continue
+                    got = bytes(ffi.buffer(raw, size + 8))
+                    if got[:size] != inv:
+                        rep.bad('bitfield-storage-bits:zero-store', '%s.%s (%s:%d): storing 0 '
+                                'into an all-ones object leaves %s, the compiler\'s bits are %s '
+                                ':: %s' % (tag, path, T, w, got[:size].hex(), gimg, text[:500]),
+                                c['id'])
+                    if got[size:] != b'\xff' * 8:
                         rep.bad('bitfield-store-outside-object', '%s.%s store wrote outside the '
                                 'object' % (tag, path), c['id'])
             for f in a['fields']:
